@@ -11,6 +11,8 @@ import json, os, subprocess, sys, time, hashlib, re, shutil, tempfile
 
 VERIF = os.path.dirname(os.path.abspath(__file__))
 REPO = os.environ.get("VERIF_REPO", "/repo")
+# evidence goes to /verif/evidence unless a run against a scratch tree (seeded changes) redirects it
+EVDIR = os.environ.get("VERIF_EVIDENCE_DIR") or os.path.join(os.path.dirname(os.path.abspath(__file__)), "evidence")
 GOSE = os.path.join(VERIF, "bin", "gose")
 MOD = "github.com/versity/versitygw/"
 ENV = dict(os.environ, GOFLAGS="-mod=mod", GOPROXY="off", GOSUMDB="off", GOTOOLCHAIN="local")
@@ -80,7 +82,7 @@ def native_replay(pid, h, v, idx):
     """Replay a solver model natively: generated test runs the same harness entry with the model's inputs."""
     if not h.get("native", False):
         return None
-    rdir = os.path.join(VERIF, "evidence", "replay", pid)
+    rdir = os.path.join(EVDIR, "replay", pid)
     os.makedirs(rdir, exist_ok=True)
     tag = "%s-%s-%d" % (h["name"], re.sub(r"[^A-Za-z0-9]+", "_", v["label"]), idx)
     assign = os.path.join(rdir, tag + ".assign.json")
@@ -143,7 +145,7 @@ def main():
     known = json.load(open(os.path.join(VERIF, "known_findings.json")))
     known_keys = {k["key"]: k for k in known if k["property"] == pid and k.get("status") == "known"}
     outdir = tempfile.mkdtemp(prefix="vcheck_%s_" % pid)
-    rdir = os.path.join(VERIF, "evidence", "replay", pid)
+    rdir = os.path.join(EVDIR, "replay", pid)
     shutil.rmtree(rdir, ignore_errors=True)
     os.makedirs(rdir, exist_ok=True)
 
@@ -260,8 +262,8 @@ def main():
         "wall_s": round(wall, 2),
         "violations": len(new_violations),
     }
-    os.makedirs(os.path.join(VERIF, "evidence"), exist_ok=True)
-    json.dump(ev, open(os.path.join(VERIF, "evidence", pid + ".json"), "w"), indent=1)
+    os.makedirs(EVDIR, exist_ok=True)
+    json.dump(ev, open(os.path.join(EVDIR, pid + ".json"), "w"), indent=1)
     shutil.rmtree(outdir, ignore_errors=True)
     print("vcheck %s %s: paths=%d queries=%d solver=%.1fs wall=%.1fs violations=%d known=%d problems=%d exhaustive=%s" % (
         pid, tier, total["paths"], total["queries"], total["solver_s"], wall, len(new_violations), len(known_hits), len(problems), exhaustive and not problems))
